@@ -394,3 +394,16 @@ func (w *s1World) lineUp(d time.Duration) (*netsim.Conn, error) {
 		return nil, fmt.Errorf("lineUp: no dial from the library within %v", d)
 	}
 }
+
+// listen (re)opens the harness listener for an active SECS-I library (no-op while one is open).
+func (w *s1World) listen() error {
+	if w.ln != nil && !w.ln.Closed() {
+		return nil
+	}
+	l, err := w.nw.Listen(w.addr)
+	if err != nil {
+		return err
+	}
+	w.ln = l
+	return nil
+}
